@@ -215,6 +215,24 @@ func (e *Engine) bounds(f *Facts, t *Term) bound {
 		}
 		return r
 	}
+	if base.K == KBin && base.S == "*" {
+		// multiplication by a positive constant scales the bounds
+		x, y := base.A[0], base.A[1]
+		if x.IsConstInt() {
+			x, y = y, x
+		}
+		if y.IsConstInt() && y.I > 0 {
+			bx := e.bounds(f, x)
+			r := bound{}
+			if bx.hasLo {
+				r.lo, r.hasLo = bx.lo*y.I+c, true
+			}
+			if bx.hasHi {
+				r.hi, r.hasHi = bx.hi*y.I+c, true
+			}
+			return r
+		}
+	}
 	b := f.bnd[base]
 	if base.K == KLen || base.K == KCap {
 		if !b.hasLo || b.lo < 0 {
